@@ -95,8 +95,12 @@ pub(crate) fn conflict_check(model: &crate::model::Model, failed: &[crate::exec:
 				}
 			}
 			"Retry" => {
-				if plan.opts.oracle_gc.is_none() && !plan.steps.iter().any(|s| matches!(s, Step::Restore | Step::RestoreB)) {
-					return Some(Violation::new("spurious_retry", format!("txn{} got TransactionRetry although neither a restore nor an oracle GC can have happened", f.txn)));
+				// the conflict map is pruned up to the oldest ACTIVE transaction's start, and a
+				// transaction is registered as active from begin to commit: its own window
+				// cannot be pruned under it. Only a restore (which rewinds the counters and
+				// resets the map) legitimately produces a retry.
+				if !plan.steps.iter().any(|s| matches!(s, Step::Restore | Step::RestoreB)) {
+					return Some(Violation::new("spurious_retry", format!("txn{} (start horizon {}) got TransactionRetry: its conflict-tracking window was pruned although it was registered as active the whole time and no restore happened", f.txn, f.start_seq)));
 				}
 			}
 			_ => {}
@@ -992,9 +996,16 @@ fn gen_c11(case_seed: u64, case: u64, tier: Tier) -> Plan {
 		let mut left = 2400u32;
 		for _ in 0..rng.range(1, 3) {
 			let k = rng.below(nkeys as u64) as u16;
-			match rng.below(8) {
+			match rng.below(9) {
 				0 => steps.push(Step::Delete { a: 0, k, ts: None }),
 				1 => steps.push(Step::SoftDelete { a: 0, k, ts: None }),
+				2 | 3 => {
+					// replace() carries a value like set() does: it is separated, pointed to and
+					// has to keep its value-log file alive in the same way
+					let len = (*rng.pick(&sizes)).min(left.saturating_sub(60));
+					steps.push(Step::Replace { a: 0, k, v: tags.next(len) });
+					left = left.saturating_sub(60 + len);
+				}
 				_ => {
 					let len = (*rng.pick(&sizes)).min(left.saturating_sub(60));
 					steps.push(Step::Set { a: 0, k, v: tags.next(len), ts: None });
